@@ -20,10 +20,22 @@ from harness.rigs import isolation as iso
 from harness.rigs import isolation_sched as isd
 
 MANIFEST = {
-    "text": "DEEPENED (see design_notes/C04.md): every episode of an episode-scheduled environment is compared with an environment built "
-            "directly from that episode's scenario (C04_skeleton_scheduled_episode_fresh; shipped and generated scenario folders); every run-time "
-            "write of a readable global must be unconditional (C04_gen_writes_unconditional, C04_conditional_write_counterexample) and precede "
-            "the reads of the same operation (C04_gen_write_order + call-event monitor). "
+    "text": "ROUND 3 (see design_notes/C04.md): F-10 REPAIRED (fix3-C04: NMNE settings are state of each game's own network) — the inventory "
+            "obligation is now FULL (C04_gen_globals_safe: no inventory entry is `shared`; C04_gen_no_readable_global; C04_gen_nmne_per_game keeps "
+            "the two class attributes unwritten), and C04_skeleton_isolated_partial excludes exactly F-11: every schedule of construct / "
+            "reset(seed) / the code's own step of any number of instances leaves each trajectory equal to the solo one provided the instances that "
+            "are stepped draw nothing from the process-global generators. THE SEED ARGUMENT is modelled as Optional[int]: `set_random_seed` and the "
+            "guard of `reset` are regenerated from source and proved equal to the model FOR EVERY ARGUMENT (C04_gen_seed_handling; a truthiness test "
+            "fails at 0, C04_truthy_seed_counterexample), and the episode-freshness theorem is stated for the CALL reset(seed=s) for every natural s "
+            "(C04_reset_any_seed_episode_fresh); reset() without a seed is fresh modulo the generator state (C04_unseeded_reset_fresh_modulo_rng). "
+            "Every differential (dirty history, schedule freshness, interleaving) resets with 0, 1, the configured seed, 2^32-1, a random seed and "
+            "no argument, and compares the state of the generators after every operation. "
+            "Earlier rounds: every episode of an episode-scheduled environment is compared with an environment built "
+            "directly from that episode's scenario (C04_skeleton_scheduled_episode_fresh; shipped and generated scenario folders, now also varying "
+            "io_settings, `defaults` durations and airspace capacities); every run-time write of a readable global must be unconditional and reached "
+            "unconditionally from from_config (C04_gen_writes_unconditional, C04_conditional_write_counterexample) and precede the reads of the same "
+            "operation (C04_gen_write_order; C04_gen_no_reader_before_write: static call graph from everything reset / __init__ / from_config call "
+            "before the write resp. before the seeding, cross-checked against monitored runs). "
             "Lean 4 proof, for a generic process model (any number of environment instances, each with environment-level and per-game "
             "state, one store of process globals, operations = straight-line programs), that under the read/write discipline of the "
             "classification (import-only globals never written; re-written-before-read / RNG globals read only after the same operation "
@@ -31,18 +43,20 @@ MANIFEST = {
             "equal to its solo run (C04_instances_independent, C04_interleaving: induction over the schedule with the frame rule C04_frame), "
             "and that a reset which does not read the old game makes any two histories indistinguishable from the reset on "
             "(C04_reset_is_fresh, C04_history_irrelevant). Tie: the SHARED-STATE INVENTORY (every ClassVar / class-level mutable attribute / "
-            "module-level mutable object, every run-time write site, every use of the global RNGs, every `global` statement, pydantic mutable "
-            "defaults) is regenerated from source into Gen/SharedState.lean and checked against a committed role table "
-            "(C04_gen_functions_known, C04_gen_classification, C04_gen_skeleton_matches, C04_gen_globals_safe_partial, "
-            "C04_gen_rng_safe_partial). PARTIAL: the code violates the discipline in `step` (F-10 NMNE class attributes, F-11 global RNG): "
-            "the full statements are kept as C04_FullSkeletonIsolated / C04_FullGenGlobalsSafe / C04_FullGenRngSafe with proved "
+            "module-level mutable object, every run-time write site incl. setattr, every use of the global RNGs, every `global` statement, pydantic "
+            "mutable defaults) is regenerated from source into Gen/SharedState.lean and checked against a committed role table "
+            "(C04_gen_functions_known, C04_gen_classification, C04_gen_skeleton_matches, C04_gen_rng_safe_partial). PARTIAL: the code violates the "
+            "discipline in `step` (F-11 global RNG): the full statements are kept as C04_FullSkeletonIsolated / C04_FullGenRngSafe with proved "
             "counterexamples; that the real step/reset behave like their skeleton is validated by the differential rig only.",
-    "note": "C04-specific: the model abstracts an operation to its global access pattern; within one operation the order write-before-read "
-            "is extracted statically for from_config (calls before the assignment) and observed dynamically (profile monitor), not proved for "
-            "the whole call graph. File/terminal output (SIM_OUTPUT, pcap loggers) is outside the claim.",
-    "technique": "Lean 4 non-interference proof over a mini imperative language; regenerated shared-state inventory; differential env rig "
-                 "(dirty history, interleaved instances with channel attribution, object-identity disjointness, scheduler copies, "
-                 "episode-schedule freshness against directly constructed environments, operation-order monitor); rig sharded over processes",
+    "note": "C04-specific: the model abstracts an operation to its global access pattern; the static call graph is by name (self type followed "
+            "through constructors, registered lambdas deferred, unknown receivers resolved within the caller's import closure) — callbacks run "
+            "by third-party code (pydantic validators, logging formatters), getattr and dunder protocol methods are seen only by the monitor. "
+            "File/terminal output (SIM_OUTPUT, pcap loggers) is outside the claim. known_findings.json still lists F-10 as open (not editable "
+            "from this check); findings/C04.json carries the `fixed` entry and the rig reports a reappearance under another channel name.",
+    "technique": "Lean 4 non-interference proof over a mini imperative language; regenerated shared-state inventory, seed handling and static "
+                 "call graph; differential env rig (dirty history over a seed family, interleaved instances incl. a third instance and close, with "
+                 "channel attribution, object-identity disjointness, scheduler copies, episode-schedule freshness against directly constructed "
+                 "environments, operation-order / seeding monitor); rig sharded over processes",
     "design_ref": "5/C04",
 }
 MODULES = ["PrimaiteModel.Props.C04"]
@@ -144,6 +158,24 @@ def _aug(cfg: Dict, rng: Rng, n: int) -> Dict:
         return cfg
 
 
+AIR_ACTIONS = {"node-network-service-recon", "node-nmap-ping-scan", "node-nmap-port-scan", "node-session-remote-login", "node-send-remote-command"}
+
+
+def _aug_air(cfg: Dict, rng: Rng, n: int) -> Dict:
+    """generated action map for a WIRELESS scenario in which most entries make a node talk to another node (scans, remote sessions), so that
+    frames cross the air in most steps and the per-network frequency capacities matter"""
+    big = _aug(cfg, rng, 8 * n)
+    pa = envrig.proxy_agent_cfg(big)
+    amap = (pa or {}).get("action_space", {}).get("action_map")
+    if not amap:
+        return big
+    ents = [v for _, v in sorted(amap.items())]
+    talk = [v for v in ents if v["action"] in AIR_ACTIONS][:n]
+    rest = [v for v in ents if v["action"] not in AIR_ACTIONS and v["action"] != "do-nothing"][: max(4, n // 4)]
+    pa["action_space"]["action_map"] = {i: v for i, v in enumerate([{"action": "do-nothing", "options": {}}] + talk + rest)}
+    return big
+
+
 # ---------------------------------------------------------------------------------------------- import-only globals at run time
 def _resolve(name: str):
     mod, _, path = name.partition(":")
@@ -216,6 +248,7 @@ def classvars_at_runtime() -> List[str]:
 def _prepare_replay():
     global _READ_GLOBALS
     import primaite.game.game  # noqa: F401
+    iso.nmne_class_attrs_at_import()
     if not _READ_GLOBALS:
         _READ_GLOBALS = read_globals(x_ss.build())
     iso.pin_opaque_widths()
@@ -270,37 +303,23 @@ def replay(rec: dict) -> bool:
         from harness.rigs import isolation_order as iord
         return not iord.monitor_build(rp["cfg"], _READ_GLOBALS, x_ss.build(), lean_roles())["problems"]
     if rp.get("type") == "dirty-history":
-        if not isinstance(rp["cfg"], dict):
-            return False  # scenario directory copied to a temporary place: re-run the check instead
-        used = scen.make_env(rp["cfg"])
-        for op in rp["history"]:
-            if op[0] == "reset":
-                used.reset(seed=op[1])
-            else:
-                used.step(op[1] % int(used.action_space.n))
+        if not isinstance(rp["cfg"], dict) and not rp.get("files"):
+            return False  # scenario directory copied to a temporary place and not carried by the record: re-run the check instead
+        _prepare_replay()
+        history = [tuple(x) for x in rp["history"]]
         later = [tuple(x) for x in rp["later"]]
-        t1 = iso.run_ops(used, later, iso.Canon())
-        fresh = scen.make_env(rp["cfg"])
-        for _ in range(sum(1 for op in rp["history"] if op[0] == "reset")):
-            fresh.reset(seed=0)
-        t2 = iso.run_ops(fresh, later, iso.Canon())
-        return iso.first_difference(t1, t2) is None
+        fresh_resets = rp.get("fresh_resets", sum(1 for op in history if op[0] == "reset"))
+        if rp.get("files"):    # an episode-scheduled scenario: the record carries the folder
+            return iso.compare_after_history(_write_folder(rp["files"]), history, fresh_resets, later, make=make_env_path)["diff"] is None
+        return iso.compare_after_history(rp["cfg"], history, fresh_resets, later)["diff"] is None
     return False  # identity / scheduler / global-mutated records are not re-executable on their own: re-run the check
 
 
 def _shrink_schedule(cfg_a, cfg_b, schedule, channels) -> List[Tuple]:
     """drop B-operations (and trailing A-steps) while the same channel still shows a difference"""
     def fails(cand):
-        if not any(e[0] == "A" and e[1] == "construct" for e in cand):
+        if not iso.schedule_well_formed(cand):
             return False
-        # B must be constructed before it is used
-        seen_b = False
-        for e in cand:
-            if e[0] == "B":
-                if e[1] == "construct":
-                    seen_b = True
-                elif not seen_b:
-                    return False
         try:
             r = iso.interleaving(cfg_a, cfg_b, cand)
         except Exception:
@@ -331,13 +350,14 @@ _READ_GLOBALS: List[str] = []
 def read_globals(inv) -> List[str]:
     """inventory entries that are written at run time and read by a non-sink function in some operation (derive = shared / rewrittenBeforeRead)"""
     roles = lean_roles()
+    unknown = (["construct", "reset", "step"], False)   # a function the committed table does not know: assume the worst (any operation, no sink)
     out = []
     for name, e in sorted(inv.entries.items()):
         if not e["writers"] or e["kind"] == "module-logger":
             continue
-        if not any(roles.get(w, ([], True))[0] for w in e["writers"]):
+        if not any(roles.get(w, unknown)[0] for w in e["writers"]):
             continue   # written by no environment operation (CLI, import time)
-        if any(roles.get(r, ([], True))[0] and not roles.get(r, ([], True))[1] for r in e["readers"]):
+        if any(roles.get(r, unknown)[0] and not roles.get(r, unknown)[1] for r in e["readers"]):
             out.append(name)
     return out
 
@@ -442,6 +462,7 @@ def run(ctx: Ctx):
                             "global_statements": len(inv.global_stmts)}
     import primaite.game.game  # noqa: F401  (loads every class)
     import primaite.session.environment  # noqa: F401
+    iso.nmne_class_attrs_at_import()      # captured here, before any environment exists in this process or in a forked worker
     # run-time cross-check of the extractor: every ClassVar that pydantic / the interpreter knows is in the inventory
     rt = classvars_at_runtime()
     missing = [n for n in rt if n not in inv.entries]
@@ -530,8 +551,12 @@ def _build_units(ctx: Ctx, rng: Rng) -> List[dict]:
     for f in sorted(CORPUS.glob("*.json")):
         units.append({"kind": "corpus", "label": f.stem, "file": str(f), "weight": 2})
     for label, spec in _dirty_specs(ctx, rng):
-        units.append({"kind": "dirty", "label": label, **spec, "episodes": rng.range(1, 3), "seed": rng.below(2 ** 31), "rng": rng.fork("dh" + label),
-                      "weight": 30 if ("uc7" in label or "multi_lan" in label) else 8})
+        # which members of the seed family (0, 1, configured, largest, random, None) this case resets with, in which order: seed 0 and "no
+        # seed argument" in every case, the others in rotation (quick) / all of them (thorough)
+        n_dirty_units = sum(1 for u in units if u["kind"] == "dirty")
+        pick = rng.shuffle([0, 5, 1 + n_dirty_units % 4] if not ctx.thorough else [0, 1, 2, 3, 4, 5])
+        units.append({"kind": "dirty", "label": label, **spec, "episodes": rng.range(1, 3), "pick": pick, "rng": rng.fork("dh" + label),
+                      "weight": 30 if ("uc7" in label or "multi_lan" in label) else 10})
     for label_a, label_b, cfg_a, cfg_b in _pairs(ctx, rng):
         for rep in range(ctx.scale(1, 3)):
             units.append({"kind": "pair", "label": f"{label_a}|{label_b}#{rep}", "la": label_a, "lb": label_b, "cfg_a": cfg_a, "cfg_b": cfg_b,
@@ -560,6 +585,11 @@ def _do_corpus(rec: Rec, unit: dict):
 _ALLOWED = None
 
 
+def _seed_class(seed: Optional[int], configured: Optional[int]) -> str:
+    return ("none" if seed is None else "zero" if seed == 0 else "one" if seed == 1 else "largest" if seed == iso.SEED_MAX
+            else "configured" if seed == configured or (configured is None and seed == 3) else "random")
+
+
 def _do_dirty(ctx: Rec, unit: dict):
     """(a) dirty history, (c) identity, (d) scheduler"""
     global _ALLOWED
@@ -574,39 +604,62 @@ def _do_dirty(ctx: Rec, unit: dict):
         ctx.notes.append(f"dirty-history {label}: scenario missing")
         return
     n_dirty, n_later = ctx.scale(30, 70), ctx.scale(16, 40)
-    episodes, seed = unit["episodes"], unit["seed"]
+    episodes = unit["episodes"]
+    cfg0 = cfg
+    if not isinstance(cfg, dict):
+        try:
+            cfg0 = isd.join_cfg(isd.read_folder(cfg), 0)
+        except Exception:
+            cfg0 = {}
+    fam = iso.seed_family(iso.configured_seed(cfg0), rng.fork("family"))
+    seeds = [fam[i] for i in unit["pick"]]
     try:
-        r = iso.dirty_history(cfg, rng, n_dirty, n_later, episodes, seed, make=maker)
+        r = iso.dirty_history(cfg, rng, n_dirty, n_later, episodes, seeds, make=maker)
     except Exception as e:
         ctx.notes.append(f"dirty-history {label}: not runnable: {type(e).__name__}: {str(e)[:120]}")
         ctx.count("dirty:not-runnable")
         return
     ctx.count("dirty:case")
     ctx.traces += 1
-    for i, op in enumerate(r["later"]):
-        ctx.case({"k": "dirty", "sc": label, "d": r["digest"], "i": i}, op[0] == "reset" or op[1] != 0)
     ctx.count("dirty:history-ops", len(r["history"]))
     for key, n in r.get("dirtied", {}).items():
         ctx.count("dirty:" + key, n)
-    if r["diff"] is not None:
-        d = r["diff"]
-        ctx.violation({"kind": "reset-not-fresh", "component": d["component"], "where": "/".join(str(d.get("path", "")).split("/")[:4])},
-                      f"{label}: after {episodes} dirty episode(s), reset(seed={seed}) + the same actions differ from a fresh environment at "
-                      f"record {d['index']} in {d['component']} {d.get('path', '')}: used={d.get('a')} fresh={d.get('b')}",
-                      {"type": "dirty-history", "scenario": label, "cfg": cfg if isinstance(cfg, dict) else str(cfg), "history":
-                       [list(x) for x in r["history"]], "later": [list(x) for x in r["later"]], "diff": d})
-    # model: used = instance 0, fresh = instance 1, same environment-level attributes
     sched_flag = 0 if isinstance(cfg, dict) else 1
     rngflag = int(iso.uses_global_rng(cfg)) if isinstance(cfg, dict) else 1
-    lines = ["reset", f"new 0 7 1 0 {rngflag} {sched_flag}", f"new 1 7 1 0 {rngflag} {sched_flag}", "ev 0 constructns 0"]
-    for op in r["history"]:
-        lines.append("ev 0 resetns 0" if op[0] == "reset" else f"ev 0 step {op[1] % 1000}")
-    later_lines = [f"ev X reset {r['later'][0][1] % 100000}"] + [f"ev X step {op[1] % 1000}" for op in r["later"][1:]]
-    lines += [l.replace("X", "0") for l in later_lines]
-    lines += ["ev 1 constructns 0"] + ["ev 1 resetns 0"] * (episodes - 1) + [l.replace("X", "1") for l in later_lines]
-    lines.append(f"cmptail 0 1 {len(later_lines)}")
-    ctx.model_lines += lines
-    ctx.expectations += [("skip", None)] * (len(lines) - 1) + [("dirty", (label, r["diff"] is None))]
+    buildflag = int(iso.draws_at_build(cfg)) if isinstance(cfg, dict) else 1
+    gs = cfg0.get("game", {}).get("seed")
+    ctor = f"constructopt {iso.seed_text(gs if isinstance(gs, int) else None)}"
+    reported = False
+    for res in r["results"]:
+        seed = res["seed"]
+        cls = _seed_class(seed, iso.configured_seed(cfg0))
+        ctx.count(f"dirty:seed-argument:{cls}")
+        if seed is None:
+            ctx.count("dirty:unseeded-reset:" + ("equals" if res.get("unseeded_equals_plain_fresh") else "differs-from") +
+                      "-a-fresh-environment-that-is-not-given-the-generator-state(measured,by-design)")
+        for i, op in enumerate(res["later"]):
+            ctx.case({"k": "dirty", "sc": label, "d": res["digest"], "i": i, "seed": iso.seed_text(seed)}, op[0] == "reset" or op[1] != 0)
+        if res["diff"] is not None and not reported:
+            reported = True
+            d = res["diff"]
+            ctx.violation({"kind": "reset-not-fresh", "component": d["component"], "where": "/".join(str(d.get("path", "")).split("/")[:4]), "seed": cls},
+                          f"{label}: after a history of {len(res['history'])} operations ({res['fresh_resets']} resets), reset({'seed=' + str(seed) if seed is not None else ''}) "
+                          f"+ the same actions differ from a fresh environment"
+                          + (" that starts its reset from the same generator state" if seed is None else "") +
+                          f" at record {d['index']} in {d['component']} {d.get('path', '')}: used={d.get('a')} fresh={d.get('b')}",
+                          {"type": "dirty-history", "scenario": label, "cfg": cfg if isinstance(cfg, dict) else str(cfg),
+                           **({} if isinstance(cfg, dict) else {"files": _folder_files(cfg)}), "history": [list(x) for x in res["history"]], "fresh_resets": res["fresh_resets"], "later": [list(x) for x in res["later"]], "diff": d})
+        # model: used = instance 0, fresh = instance 1, same environment-level attributes; the seed argument goes to the model AS IT IS
+        lines = ["reset", f"new 0 7 1 0 {rngflag} {sched_flag} 0 {buildflag}", f"new 1 7 1 0 {rngflag} {sched_flag} 0 {buildflag}", f"ev 0 {ctor}"]
+        for op in res["history"]:
+            lines.append(f"ev 0 resetopt {iso.seed_text(op[1])}" if op[0] == "reset" else f"ev 0 step {op[1] % 1000}")
+        later_lines = [f"ev X resetopt {iso.seed_text(seed)}"] + [f"ev X step {op[1] % 1000}" for op in res["later"][1:]]
+        lines += (["saverng"] if seed is None else []) + [l.replace("X", "0") for l in later_lines]
+        lines += [f"ev 1 {ctor}"] + [f"ev 1 resetopt {1000003 + k}" for k in range(res["fresh_resets"])]
+        lines += (["restorerng"] if seed is None else []) + [l.replace("X", "1") for l in later_lines]
+        lines.append(f"cmptail 0 1 {len(later_lines)}")
+        ctx.model_lines += lines
+        ctx.expectations += [("skip", None)] * (len(lines) - 1) + [("dirty", (f"{label}/seed={iso.seed_text(seed)}", res["diff"] is None))]
     # (c) identity disjointness: old game vs new game of the used environment; used vs fresh environment
     if _ALLOWED is None:
         _ALLOWED = iso.import_time_objects()
@@ -634,7 +687,8 @@ def _do_dirty(ctx: Rec, unit: dict):
     for p in probs:
         ctx.violation({"kind": "scheduler-shares-state", "what": p.split(" ")[0]}, f"{label}: {p}", {"type": "scheduler", "scenario": label, "problem": p})
     ctx.sample({"rig": "dirty-history", "scenario": label, "dirty_episodes": episodes, "history_ops": len(r["history"]),
-                "later_ops": len(r["later"]), "equal": r["diff"] is None}, cap=8)
+                "reset_arguments_compared": [iso.seed_text(x["seed"]) for x in r["results"]], "later_ops": [len(x["later"]) for x in r["results"]],
+                "equal": r["diff"] is None}, cap=8)
     for e in (r["used"], r["fresh"]):
         try:
             e.close()
@@ -645,13 +699,17 @@ def _do_dirty(ctx: Rec, unit: dict):
 def _do_pair(ctx: Rec, unit: dict):
     """(b) interleaved instances"""
     cfg_a, cfg_b = unit["cfg_a"], unit["cfg_b"]
+    # the sizes of the action spaces are read off the scenarios: constructing environments here, before the differential's own normalised
+    # runs, would leave their traces in the process (that is exactly what the differential is looking for)
     try:
-        ea, eb = scen.make_env(cfg_a), scen.make_env(cfg_b)
-        sa, sb = int(ea.action_space.n), int(eb.action_space.n)
+        sa = len(envrig.proxy_agent_cfg(cfg_a)["action_space"]["action_map"])
+        sb = len(envrig.proxy_agent_cfg(cfg_b)["action_space"]["action_map"])
     except Exception as e:
-        ctx.notes.append(f"pair {unit['label']}: not constructible: {type(e).__name__}: {str(e)[:100]}")
+        ctx.notes.append(f"pair {unit['label']}: no action map: {type(e).__name__}: {str(e)[:100]}")
         return
-    sched = iso.gen_schedule(unit["rng"], ctx.scale(18, 45), sa, sb, unit["b_first"])
+    fam_a = iso.seed_family(iso.configured_seed(cfg_a), unit["rng"].fork("famA"))
+    fam_b = iso.seed_family(iso.configured_seed(cfg_b), unit["rng"].fork("famB"))
+    sched = iso.gen_schedule(unit["rng"], ctx.scale(18, 45), sa, sb, unit["b_first"], fam_a=fam_a, fam_b=fam_b)
     _interleaving_case(ctx, f"{unit['la']}|{unit['lb']}", unit["la"], unit["lb"], cfg_a, cfg_b, sched, ctx.model_lines, ctx.expectations, shrink=True)
 
 
@@ -710,7 +768,7 @@ def _pairs(ctx: Ctx, rng: Rng):
     if uc2:
         out.append(("uc2", "uc2", uc2, set_seed(uc2, 77)))          # same scenario twice: F-11 territory
     if wl and fw:
-        out.append(("wireless", "wireless-capacity-override", _aug(wl, rng.fork("pW"), 40), set_air(wl, 0.001)))
+        out.append(("wireless", "wireless-capacity-override", _aug_air(wl, rng.fork("pW"), 40), set_air(wl, 0.001)))
         out.append(("firewall-nmne-on2", "wireless", set_nmne(_aug(fw, rng.fork("pF"), 40), NMNE_ON2), wl))
     if ctx.thorough:
         uc7 = _load("uc7_config")
@@ -720,6 +778,17 @@ def _pairs(ctx: Ctx, rng: Rng):
         if fw and wl:
             out.append(("firewall", "wireless-thresholds", _aug(fw, rng.fork("pF2"), 60), set_thresholds(wl, TH)))
     return out
+
+
+_OPEN: Optional[List[dict]] = None
+
+
+def _is_known(sig: dict) -> bool:
+    global _OPEN
+    from harness.lib.core import load_findings, sig_matches
+    if _OPEN is None:
+        _OPEN = [f for f in load_findings() if f["property"] == "C04" and f.get("status") == "open"]
+    return any(sig_matches(f["signature"], sig) for f in _OPEN)
 
 
 def _interleaving_case(ctx: "Rec", label: str, la, lb, cfg_a: Dict, cfg_b: Dict, sched: List[Tuple], model_lines: List[str],
@@ -738,11 +807,13 @@ def _interleaving_case(ctx: "Rec", label: str, la, lb, cfg_a: Dict, cfg_b: Dict,
     k = 0
     prev_b = False
     for e in sched:
-        if e[0] == "B":
+        if e[0] != "A":
             prev_b = True
             continue
         if e[1] == "construct":
             continue
+        if e[1] == "reset":
+            ctx.count("interleave:A-reset-argument:" + _seed_class(e[2], iso.configured_seed(cfg_a)))
         ctx.case({"k": "il", "pair": label, "d": r["digest"], "i": k, "s": hash(tuple(sched)) & 0xffffff}, prev_b or (e[1] == "step" and e[2] != 0))
         prev_b = False
         k += 1
@@ -753,13 +824,15 @@ def _interleaving_case(ctx: "Rec", label: str, la, lb, cfg_a: Dict, cfg_b: Dict,
         og = r["own_globals"]
         ctx.violation({"kind": "instance-interference", "channel": "own-build-does-not-rewrite-globals"},
                       f"{label}: right after instance A's own construct/reset #{og['index']} the run-time written globals an operation may read "
-                      f"({', '.join(_READ_GLOBALS)}) are {og['interleaved']} with instance B interleaved but {og['solo']} alone: A's "
-                      f"from_config does not (re)write them from A's scenario", {**replay_info, "channel": "own-build-does-not-rewrite-globals", "own_globals": og})
+                      f"({', '.join(_READ_GLOBALS)}; after a seeding operation also the state of the process-global generators) are "
+                      f"{og['interleaved']} with other instances interleaved but {og['solo']} alone: A's own operation does not (re)write them "
+                      f"from A's scenario / seed argument", {**replay_info, "channel": "own-build-does-not-rewrite-globals", "own_globals": og})
     if r["diff"] is not None:
         chans = r["channels"]
         ctx.count("interleave:differs:" + "+".join(chans))
         small = sched
-        if shrink:
+        # a difference that is entirely a recorded open finding is reported as KNOWN-FINDING whatever its size: shrink only what is new
+        if shrink and not all(_is_known({"kind": "instance-interference", "channel": ch}) for ch in chans):
             try:
                 small = _shrink_schedule(cfg_a, cfg_b, sched, chans)
             except Exception:
@@ -773,7 +846,7 @@ def _interleaving_case(ctx: "Rec", label: str, la, lb, cfg_a: Dict, cfg_b: Dict,
                           {**replay_info, "schedule": [list(x) for x in small], "channel": ch, "residual": r.get("residual")})
     else:
         ctx.count("interleave:equal")
-    ctx.sample({"rig": "interleaving", "pair": label, "ops": len(sched), "b_ops": sum(1 for e in sched if e[0] == 'B'),
+    ctx.sample({"rig": "interleaving", "pair": label, "ops": len(sched), "b_ops": sum(1 for e in sched if e[0] != 'A'),
                 "equal": r["diff"] is None, "channels": r["channels"]}, cap=8)
     lines, idx = iso.model_lines(cfg_a, cfg_b, sched, {})
     model_lines += lines
@@ -801,6 +874,11 @@ def _sched_units(ctx: Ctx, rng: Rng) -> List[dict]:
     for i in range(ctx.scale(2, 10)):
         g = {"size": 1 + (i % 3 == 2 and ctx.thorough), "n_topologies": 1 + i % 2, "n_net": 3 + (i // 2) % 2, "n_agents": 2, "extra_entries": 1 + i % 3}
         units.append({"kind": "sched", "label": f"generated-{i}", "gen": g, "episodes": None, "only": None, "steps": steps, "rng": rng.fork(f"gen{i}"), "weight": 8})
+    # folders over the shipped WIRELESS scenario: the episodes differ in airspace capacities (an override, then none), `defaults`, io_settings
+    for i in range(ctx.scale(1, 3)):
+        g = {"n_topologies": 1, "n_net": 3 + i % 2, "n_agents": 2, "extra_entries": 1 + i % 2}
+        units.append({"kind": "sched", "label": f"generated-wireless-{i}", "gen": g, "base": "wireless_wan_network_config", "episodes": None, "only": None,
+                      "steps": steps, "rng": rng.fork(f"genw{i}"), "weight": 8})
     return units
 
 
@@ -814,8 +892,22 @@ def _do_sched(rec: Rec, unit: dict):
         folder = episodic_dir(unit["dir"])
     else:
         folder = str(Path(tempfile.mkdtemp(prefix="c04g_", dir=_W.get("tmp"))) / "scenario")
-        desc = isd.gen_folder(rng.fork("folder"), Path(folder), **unit["gen"])
+        base_cfgs = None
+        if unit.get("base"):
+            b = _load(unit["base"])
+            if b is None:
+                rec.notes.append(f"schedule {unit['label']}: scenario {unit['base']} missing")
+                return
+            base_cfgs = [_aug_air(b, rng.fork("aug"), 40)]
+        desc = isd.gen_folder(rng.fork("folder"), Path(folder), base_cfgs=base_cfgs, **unit["gen"])
         rec.count("sched:generated-folder")
+        for v in desc["air"].values():
+            rec.count("sched:variant-airspace:" + ("absent" if v == "<absent>" else "override"))
+        for v in desc["defaults"].values():
+            rec.count("sched:variant-defaults:" + ("empty" if not v else "durations-set"))
+            if any(x == 0 for x in v.values()):
+                rec.count("sched:variant-defaults:with-a-zero-duration")
+        rec.count("sched:variant-io-log-levels-distinct", len({json.dumps(v, sort_keys=True) for v in desc["io"].values()}))
         for v in desc["nmne"].values():
             rec.count("sched:variant-nmne:" + ("absent" if v == "<absent>" else "empty" if v == {} else "capture-on" if v.get("capture_nmne") else "capture-off"))
         rec.count("sched:generated-topologies", len(desc["topologies"]))
@@ -824,9 +916,13 @@ def _do_sched(rec: Rec, unit: dict):
     k_max = unit["episodes"] or (n + 2)
     # the plan (seed and actions of every episode) is drawn here so that the replay record carries it
     plan = []
+    fd0 = isd.read_folder(folder)
+    off = rng.below(6)
     for k in range(k_max + 1):
         r = rng.fork(f"ep{k}")
-        plan.append({"seed": r.below(2 ** 31), "acts": [0 if r.chance(1, 6) else r.below(2 ** 16) for _ in range(unit["steps"] if k else max(2, unit["steps"] // 2))]})
+        # the seed argument of episode k's reset: the family (0, 1, that episode's configured game.seed, largest, random, None) in rotation
+        fam = iso.seed_family(iso.configured_seed(isd.join_cfg(fd0, k)), r.fork("family"))
+        plan.append({"seed": fam[(k + off) % len(fam)], "acts": [0 if r.chance(1, 6) else r.below(2 ** 16) for _ in range(unit["steps"] if k else max(2, unit["steps"] // 2))]})
     _sched_case(rec, unit["label"], {"files": files, "plan": plan, "only": unit.get("only")}, shrink=True)
 
 
@@ -877,7 +973,8 @@ def _sched_case(rec: Rec, label: str, rp: dict, shrink: bool):
                 small = {**rp, "only": [k]}
         rec.violation({"kind": "scheduled-episode-not-fresh", "component": d["component"], "first_use_of_files": d["first_use_of_files"]},
                       f"{label}: episode {k} (schedule entry {d['entry']}: {d['files']}) reached by {k} reset(s) of one environment differs from a new "
-                      f"environment constructed from that episode's scenario (both reset(seed={rp['plan'][k]['seed']}), same actions) at record "
+                      f"environment constructed from that episode's scenario (both reset(seed={rp['plan'][k]['seed']})"
+                      + (" = no seed argument, the reference starting from the same generator state" if rp['plan'][k]['seed'] is None else "") + ", same actions) at record "
                       f"{d['index']} in {d['component']} {d.get('path', '')}: long-lived={d.get('a')} fresh={d.get('b')}"
                       + (f"; {len(r['diffs'])} of {len(r['compared'])} compared episodes differ" if len(r["diffs"]) > 1 else ""),
                       {"type": "schedule-freshness", **small, "diff": d, "episode": k})
@@ -887,14 +984,19 @@ def _sched_case(rec: Rec, label: str, rp: dict, shrink: bool):
     fd = {"entries": entries, "texts": {fn: rp["files"][fn] for e in entries for fn in e}, "base": rp["files"][_base_name(rp["files"])]}
     nm = {json.dumps(isd.join_cfg(fd, j).get("simulation", {}).get("network", {}).get("nmne_config", "<absent>"), sort_keys=True) for j in range(n)}
     var = int(len(nm) > 1)
+    for k in r["compared"]:
+        rec.count("sched:seed-argument:" + _seed_class(rp["plan"][k]["seed"], iso.configured_seed(isd.join_cfg(fd, k))))
     for k in r["compared"][-2:]:
-        lines = ["reset", f"new 0 7 1 0 1 1 {var}", f"new 1 {7 + k} {1 + var * k} 0 1 0 0", "ev 0 constructns 0"]
+        sk = rp["plan"][k]["seed"]
+        lines = ["reset", f"new 0 7 1 0 1 1 {var}", f"new 1 {7 + k} {1 + var * k} 0 1 0 0", "ev 0 constructopt none"]
         lines += [f"ev 0 step {a % 1000}" for a in rp["plan"][0]["acts"]]
         for j in range(1, k + 1):
-            lines.append(f"ev 0 reset {rp['plan'][j]['seed'] % 100000}")
+            if j == k and sk is None:
+                lines.append("saverng")
+            lines.append(f"ev 0 resetopt {iso.seed_text(rp['plan'][j]['seed'])}")
             lines += [f"ev 0 step {a % 1000}" for a in rp["plan"][j]["acts"]]
-        tail = [f"ev 1 reset {rp['plan'][k]['seed'] % 100000}"] + [f"ev 1 step {a % 1000}" for a in rp["plan"][k]["acts"]]
-        lines += ["ev 1 constructns 0"] + tail + [f"cmptail 0 1 {len(tail)}"]
+        tail = [f"ev 1 resetopt {iso.seed_text(sk)}"] + [f"ev 1 step {a % 1000}" for a in rp["plan"][k]["acts"]]
+        lines += ["ev 1 constructopt none"] + (["restorerng"] if sk is None else []) + tail + [f"cmptail 0 1 {len(tail)}"]
         rec.model_lines += lines
         rec.expectations += [("skip", None)] * (len(lines) - 1) + [("sched", (f"{label}#ep{k}", k not in bad))]
 
@@ -962,18 +1064,39 @@ def _do_order(rec: Rec, unit: dict):
             for c in a.get("observation_space", {}).get("options", {}).get("components", []):
                 if "include_nmne" in c.get("options", {}):
                     c["options"]["include_nmne"] = False
-    r = iord.monitor_build(cfg, _READ_GLOBALS, _W["inv"], lean_roles())
-    rec.count("order:operations-monitored", 2)
+    r = iord.monitor_build(cfg, _READ_GLOBALS, _W["inv"], lean_roles(), seeds=(rng.range(1, 2 ** 31), 0))
+    rec.count("order:operations-monitored", r["operations"])
     rec.count("order:call-events", r["events"])
     rec.count("order:reader-calls-after-the-operation's-write", r["reads_after_write"])
+    rec.count("order:generator-draws-after-the-operation's-seeding", r["draws_after_seed"])
     rec.case({"k": "order", "sc": label, "n": r["events"]}, True)
     rec.oblige("rig: every non-sink reader function of the readable run-time written globals could be resolved for monitoring", "correspondence",
                not r["unresolved"], f"{r['unresolved']}")
+    # cross-check of the STATIC call graph (Gen.reachBeforeWrite): the package functions ENTERED before the operation's seeding on this run
+    inv = _W["inv"]
+    static: Dict[str, set] = {}
+    for row in inv.reach:
+        if row["entry"] == x_ss.GENERATORS:
+            static.setdefault(row["op"], set()).update(row["reached"])
+    for op in ("__init__", "reset"):
+        allowed = static.get(op, set()) | {"session.environment:PrimaiteGymEnv." + op, "session.environment:set_random_seed"}
+        dyn = {f for f in r["before_write"][op] if f in inv.callgraph.byqual}      # class bodies executed by a first import are no functions
+        missed = sorted(dyn - allowed)
+        rec.count("order:functions-entered-before-the-seeding", len(dyn))
+        rec.count("order:…of-which-in-the-static-call-graph", len(dyn & allowed))
+        rd, trunc = x_ss.drawers_reachable_from(inv, missed)
+        for f in missed:
+            rec.count("order:entered-but-not-in-static-graph(callback from third-party code):" + f)
+        rec.oblige(f"extractor cross-check[{label}/{op}]: every package function entered before the operation's seeding is in the static call "
+                   "graph, or (callbacks invoked by pydantic / logging) reaches no function that draws from a global generator", "extractor",
+                   not rd and not trunc, f"missed={missed} reach drawers: {rd} truncated={trunc}")
     for p in r["problems"][:2]:
+        what = {"read-before-own-write": "read by " + str(p.get("reader", "?")) + " before the operation has written it",
+                "not-rewritten": "not written at all: the operation leaves what an earlier episode / another instance installed",
+                "draw-before-seed": "drawn by " + str(p.get("reader", "?")) + " before the operation has seeded them",
+                "not-seeded": "not seeded although the operation was given a seed: the episode continues the stream earlier episodes left"}[p["kind"]]
         rec.violation({"kind": "operation-order", "what": p["kind"], "global": p["global"].split(".")[-1]},
-                      f"{label}: in `{p['operation']}` the global {p['global']} is " +
-                      ("read by " + p.get("reader", "?") + " before the operation has written it" if p["kind"] == "read-before-own-write" else
-                       "not written at all: the operation leaves what an earlier episode / another instance installed"),
+                      f"{label}: in `{p['operation']}` the global {p['global']} is " + what,
                       {"type": "operation-order", "cfg": cfg, "problem": p})
-    rec.sample({"rig": "operation-order", "scenario": label, "call_events": r["events"], "reader_calls_after_write": r["reads_after_write"],
-                "write_at_event": r["write_event"], "readers": r["readers_monitored"]}, cap=10)
+    rec.sample({"rig": "operation-order", "scenario": label, "call_events": r["events"], "seed_call_at_event": r["seed_event"],
+                "draws_after_seed": r["draws_after_seed"], "drawers": r["drawers_monitored"]}, cap=10)
